@@ -74,6 +74,11 @@ func (p *Program) verifyFunc(fc *FuncContract) (u *Unit) {
 	defer func() {
 		if r := recover(); r != nil {
 			if se, ok := r.(structureError); ok {
+				if fc.PrefixOnly && len(x.vc.Obls) > 0 {
+					x.vc.note("PREFIX ONLY: translation of " + fc.Key + " stopped at: " + se.msg + " -- obligations generated before that point are checked, the rest of the function is not verified")
+					u.Bounded = append(u.Bounded, fc.Key+": only the prefix before `"+se.msg+"` is verified")
+					return
+				}
 				u.Err = se.msg
 				return
 			}
